@@ -297,3 +297,84 @@ func checkAdaptersReportCancellation(p *Prog, res *Result, rule string) {
 		res.ok(rule, "adapters: no function cuts its work short on ctx.Err()", "-", "no adapter function inspects ctx.Err()")
 	}
 }
+
+// checkExpiryIsCompareAndDelete: a ttl belongs to the value it was written with. The in-process engine implements it
+// with a timer per write; what the timer's callback removes, it removes only after having compared the stored value
+// with the value the timer was armed for (every call chain from the callback to a staged delete or a skip-list Remove
+// passes the true edge of a byte comparison). A delete by key alone also removes a later write of that key - the index
+// record of an Event that has been updated since, while its new version stays.
+func checkExpiryIsCompareAndDelete(p *Prog, r *Roles, res *Result, rule string) {
+	mp := p.ssaPkg("pkg/storage/memkv")
+	n := 0
+	var fs []*ssa.Function
+	for _, f := range p.AllFuncs {
+		if f.Pkg == mp && f.Blocks != nil {
+			fs = append(fs, f)
+		}
+	}
+	sort.Slice(fs, func(i, j int) bool { return funcName(fs[i]) < funcName(fs[j]) })
+	for _, f := range fs {
+		for _, c := range callsIn(f) {
+			sc := c.Common().StaticCallee()
+			if sc == nil || sc.Pkg == nil || sc.Pkg.Pkg.Path() != "time" || (sc.Name() != "AfterFunc" && sc.Name() != "NewTimer" && sc.Name() != "After") {
+				continue
+			}
+			if sc.Name() != "AfterFunc" || len(c.Common().Args) != 2 {
+				continue
+			}
+			cbs := p.funcValues(c.Common().Args[1], 0)
+			for _, cb := range cbs {
+				n++
+				construct := fmt.Sprintf("%s: expiry callback #%d removes only the value its ttl was set for", funcName(f), n)
+				isRemoval := func(ins ssa.Instruction) bool {
+					ci, ok := ins.(ssa.CallInstruction)
+					if !ok {
+						return false
+					}
+					// (Commit applies what was staged: the decision is taken where the delete is staged)
+					if isEngineCall(ci, "Remove", "RemoveElement") && ins.Parent() != p.implIn(r.BWCommit, "pkg/storage/memkv") {
+						return true
+					}
+					if callee := ci.Common().StaticCallee(); callee != nil && callee == p.implIn(r.BWDel, "pkg/storage/memkv") {
+						return true
+					}
+					return ci.Common().IsInvoke() && ci.Common().Method == r.BWDel
+				}
+				chains := enumerateChains(p, cb, isRemoval, func(g *ssa.Function) bool { return g.Pkg == mp }, 5)
+				if len(chains) == 0 {
+					res.und(rule, construct, p.pos(c.Pos()), "the callback reaches no removal")
+					continue
+				}
+				bad := ""
+				for _, ch := range chains {
+					compared := false
+					for _, cf := range ch.facts() {
+						if cf.Call != nil && cf.Want {
+							if s2 := cf.Call.Common().StaticCallee(); s2 != nil && s2.Pkg != nil && s2.Pkg.Pkg.Path() == "bytes" && s2.Name() == "Equal" {
+								compared = true
+							}
+						}
+						if cf.X != nil && isZeroConst(cf.Y) && ((cf.Op == token.EQL && cf.Want) || (cf.Op == token.NEQ && !cf.Want)) {
+							if c2, ok := resolve(cf.X).(*ssa.Call); ok {
+								if s2 := c2.Common().StaticCallee(); s2 != nil && s2.Pkg != nil && s2.Pkg.Pkg.Path() == "bytes" && s2.Name() == "Compare" {
+									compared = true
+								}
+							}
+						}
+					}
+					if !compared {
+						bad = ch.String()
+					}
+				}
+				if bad == "" {
+					res.ok(rule, construct, p.pos(c.Pos()), fmt.Sprintf("%d removal chain(s), each on the equal edge of a byte comparison", len(chains)))
+				} else {
+					res.bad(rule, construct, p.pos(c.Pos()), "the expiry timer removes the key by name, whatever it holds by then ("+bad+"): a key rewritten since the ttl was set - the index record of an Event after an update, a lock record after a renewal - is removed although its newest change is younger than the ttl, and the records written with it stay behind")
+				}
+			}
+		}
+	}
+	if n == 0 {
+		res.und(rule, "memkv: expiry timer", "-", "no time.AfterFunc callback found")
+	}
+}
